@@ -464,7 +464,12 @@ pub fn step(d: &mut Driver) {
         }
         if d.net != NetID::Mainnet || d.r.gen_bool(0.5) {
             if let Some(f) = d.faucets.choose(&mut d.r).cloned() {
-                d.apply(&[f], 0, json!({"why": "replay-faucet"}));
+                d.apply(&[f.clone()], 0, json!({"why": "replay-faucet"}));
+                // the same faucet with other bytes in its (never checked) signature field: same transaction hash
+                let mut g = f.clone();
+                g.sigs.push(vec![d.r.gen::<u8>(); 3].into());
+                d.apply(&[g.clone()], 0, json!({"why": "replay-faucet with different signatures"}));
+                d.apply(&[f, g], 0, json!({"why": "faucet and its different-signature copy in one batch"}));
             }
         }
     } else if kind < 76 {
@@ -481,7 +486,12 @@ pub fn step(d: &mut Driver) {
         } else {
             d.apply(&[f.clone()], 0, json!({"why": "faucet"}));
             if d.r.gen_bool(0.5) {
-                d.apply(&[f], 0, json!({"why": "faucet-again-same-block"}));
+                d.apply(&[f.clone()], 0, json!({"why": "faucet-again-same-block"}));
+            }
+            if d.r.gen_bool(0.5) {
+                let mut g = f;
+                g.sigs.push(vec![1u8, 2].into());
+                d.apply(&[g], 0, json!({"why": "faucet-again-same-block with different signatures"}));
             }
         }
     } else if kind < 96 {
